@@ -1,7 +1,7 @@
 from vfeng import Unit, Harness
 PROPERTY = 'C07'
 NAMES = {0: 'min', 1: 'max', 2: 'abs', 3: 'ifthen', 4: 'and', 5: 'or', 6: 'not', 7: 'count', 9: 'alldiff', 10: 'implication'}
-RB = ['_ZSt18_Rb_tree_incrementPKSt18_Rb_tree_node_base', '_ZSt18_Rb_tree_incrementPSt18_Rb_tree_node_base', '_ZSt18_Rb_tree_decrementPSt18_Rb_tree_node_base', '_ZSt18_Rb_tree_decrementPKSt18_Rb_tree_node_base', '_ZSt29_Rb_tree_insert_and_rebalancebPSt18_Rb_tree_node_baseS0_RS_']
+RB = ['_ZSt18_Rb_tree_incrementPKSt18_Rb_tree_node_base', '_ZSt18_Rb_tree_incrementPSt18_Rb_tree_node_base', '_ZSt18_Rb_tree_decrementPSt18_Rb_tree_node_base', '_ZSt18_Rb_tree_decrementPKSt18_Rb_tree_node_base', '_ZSt29_Rb_tree_insert_and_rebalancebPSt18_Rb_tree_node_baseS0_RS_', '_ZNSt8_Rb_treeIiSt4pairIKidESt10_Select1stIS2_ESt4lessIiESaIS2_EE8_M_eraseEPSt13_Rb_tree_nodeIS2_E']
 def units(tier):
     u = Unit('eval', 'wrap.cc', 'harness.c', externs=RB + ['_ZN3fmt14BasicFormatterIcNS_12ArgFormatterIcEEE6formatENS_15BasicCStringRefIcEE'], extra_repo_cc=['src/std_constr.cc'], ll2c_args=['--inline-mem', '1024'])
     u.stub_undefined = True; u.tool_c = ['vf_rbtree.c']; u.tv = False
